@@ -186,6 +186,87 @@ def filter_sort_fn():
     return fn
 
 
+def filter_history_fn():
+    """filter_and_sort_qualifiers asked about two dictionaries one after the other in a FRESHLY LOADED parser module (no verdict of an earlier path or process
+    can be remembered): the spelling of a key in the first dictionary must not decide the fate of a differently-cased spelling in the second"""
+
+    def fn(i, va, vb, swap):
+        i, va, vb, swap = concretize(i, va, vb, swap)
+        with untraced():
+            import importlib
+            import sys
+
+            mod = importlib.reload(sys.modules["inscripta.biocantor.io.gff3.parser"]) if "inscripta.biocantor.io.gff3.parser" in sys.modules else \
+                importlib.import_module("inscripta.biocantor.io.gff3.parser")
+            from inscripta.biocantor.io.gff3.constants import BioCantorGFF3ReservedQualifiers, BioCantorQualifiers
+
+            reserved = set()
+            for e in list(BioCantorQualifiers.__members__.values()) + list(BioCantorGFF3ReservedQualifiers.__members__.values()):
+                reserved.update({e.name.lower(), e.value})
+            base = RESERVED_EXACT[i]
+            spell = [base, base.lower(), base.upper(), base.title(), base.capitalize(), base.swapcase()]
+            ka, kb = spell[va], spell[vb]
+            seq = [ka, kb, ka] if not swap else [kb, ka, kb]
+            ok = True
+            for key in seq:
+                q = {key: ["v2", "v1"], "note": ["n"]}
+                got = mod.filter_and_sort_qualifiers(q)
+                exp = {k_: sorted(v) for k_, v in q.items() if k_ not in reserved}
+                ok = ok and got == exp and q == {key: ["v2", "v1"], "note": ["n"]}
+            return ok
+
+    return fn
+
+
+def gff3_gene_priority_fn():
+    """io.gff3.parser: the gene symbol / biotype / id of a parsed gene follow the priority lists (gene_name > gene_symbol > gene > Name; gene_biotype >
+    gene_type; gene_id > ID) whatever the order of the attributes in column 9 (GFF3 text written by the harness, parsed by parse_standard_gff3)"""
+    SYM = ["gene_name", "gene_symbol", "gene", "Name"]
+    BT = ["gene_biotype", "gene_type"]
+
+    def fn(perm, mask, bswap, idfirst):
+        perm, mask, bswap, idfirst = concretize(perm, mask, bswap, idfirst)
+        with untraced():
+            import logging
+            import os
+            import warnings
+
+            from harness.c11 import _tmp_path
+            from inscripta.biocantor.io.gff3.parser import parse_standard_gff3
+
+            order = list(itertools.permutations(range(4)))[perm]
+            keys = [SYM[x] for x in order if mask >> x & 1]
+            vals = {"gene_name": "sym_gn", "gene_symbol": "sym_gs", "gene": "sym_g", "Name": "sym_N", "gene_biotype": "ncRNA", "gene_type": "protein_coding"}
+            bts = BT[::-1] if bswap else BT
+            attrs = [("ID", "gene1")] + [(k_, vals[k_]) for k_ in keys] + [(b, vals[b]) for b in bts]
+            attrs = attrs + [("gene_id", "GID")] if not idfirst else [("gene_id", "GID")] + attrs
+            col9 = ";".join("%s=%s" % kv for kv in attrs)
+            rows = ["##gff-version 3", "##sequence-region chr1 1 100",
+                    "\t".join(["chr1", "t", "gene", "11", "40", ".", "+", ".", col9]),
+                    "\t".join(["chr1", "t", "mRNA", "11", "40", ".", "+", ".", "ID=tx1;Parent=gene1;transcript_id=T1"]),
+                    "\t".join(["chr1", "t", "exon", "11", "40", ".", "+", ".", "ID=ex1;Parent=tx1"])]
+            path = _tmp_path("c18g")
+            logging.disable(logging.CRITICAL)
+            try:
+                with warnings.catch_warnings():
+                    warnings.simplefilter("ignore")
+                    with open(path, "w") as fh:
+                        fh.write("\n".join(rows) + "\n")
+                    recs = list(parse_standard_gff3(path))
+            finally:
+                logging.disable(logging.NOTSET)
+                if os.path.exists(path):
+                    os.remove(path)
+            genes = recs[0].annotation.genes
+            if len(genes) != 1:
+                return False
+            g = genes[0]
+            want = next((vals[k_] for k_ in SYM if k_ in keys), None)
+            return g.gene_symbol == want and g.gene_type is not None and g.gene_type.name == "ncRNA" and g.gene_id == "GID"
+
+    return fn
+
+
 # keys the GFF3 parser turns into BioCantor identifiers (io.gff3.constants.BioCantorQualifiers) or that GFF3 reserves, and look-alikes that must survive
 RESERVED_EXACT = ["gene_id", "gene_name", "gene_biotype", "transcript_id", "transcript_name", "transcript_biotype", "protein_id", "product", "feature_name",
                   "feature_id", "feature_type", "locus_tag", "ID", "Name", "Parent"]
@@ -231,6 +312,19 @@ def obligations(tier):
                             "parent's qualifiers (plus only the documented identifier keys on export); both operands unchanged and not aliased" % kind,
                        bounds="all %d ordered pairs of catalogue dictionaries (incl. none, empty, shared keys, case-different keys)" % (len(QD) ** 2),
                        examples=[dict(i=3, j=4), dict(i=0, j=7)]))
+    out.append(Obl("gff3_gene_attribute_priority", gff3_gene_priority_fn(), dict(perm=int, mask=int, bswap=int, idfirst=int),
+                   lambda perm, mask, bswap, idfirst: 0 <= perm and perm < 24 and 1 <= mask and mask <= 15 and 0 <= bswap and bswap <= 1 and 0 <= idfirst and idfirst <= 1
+                   and (tier == "thorough" or (perm + mask) % 2 == 0), budget=900, cost=60,
+                   desc="GFF3 gene row with any non-empty subset of gene_name / gene_symbol / gene / Name in any attribute order, gene_biotype and gene_type in either "
+                        "order, gene_id before or after ID: the parsed gene's symbol, biotype and id are those of the highest-priority key present",
+                   bounds="24 attribute orders x 15 subsets x 2 x 2%s (closed by the solver), parsed by parse_standard_gff3 (gffutils, native)" % (
+                       "" if tier == "thorough" else ", half of them in the quick tier"), examples=[dict(perm=23, mask=15, bswap=1, idfirst=0), dict(perm=1, mask=9, bswap=0, idfirst=1)]))
+    out.append(Obl("filter_and_sort_qualifiers_history", filter_history_fn(), dict(i=int, va=int, vb=int, swap=int),
+                   lambda i, va, vb, swap: 0 <= i and i < len(RESERVED_EXACT) and 0 <= va and va < vb and vb <= 5 and 0 <= swap and swap <= 1, budget=600, cost=30,
+                   desc="filter_and_sort_qualifiers on three dictionaries in a row in a freshly loaded parser module: a reserved key and a differently-cased look-alike "
+                        "of it (lower / upper / title / capitalised / swapped case) each get their own verdict - exact reserved spellings dropped, every other "
+                        "spelling kept - in either order", bounds="%d reserved keys x 15 spelling pairs x 2 orders (closed by the solver)" % len(RESERVED_EXACT),
+                   examples=[dict(i=7, va=0, vb=3, swap=1), dict(i=0, va=0, vb=2, swap=0)]))
     nf = len(FKEYS)
     out.append(Obl("filter_and_sort_qualifiers", filter_sort_fn(), {"i": int, "j": int, "k": int},
                    lambda i, j, k: 0 <= i and i < j and j < k and k < nf if tier == "thorough" else (0 <= i and i < j and j < k and k < nf and (i + j + k) % 4 == 0),
